@@ -282,6 +282,18 @@ pub fn check_c09(tree: &CN, compact: bool, multiline: bool, stats: &mut Stats) {
         }
     };
     stats.cnt("dumps", 1);
+    // well-formed output consists of printable characters only (YAML 1.2.2 production [1]
+    // c-printable): everything else has to be written as an escape sequence
+    let printable = |c: char| matches!(c, '\t' | '\n' | '\r' | ' '..='~' | '\u{85}' | '\u{a0}'..='\u{d7ff}' | '\u{e000}'..='\u{fffd}' | '\u{10000}'..='\u{10ffff}');
+    if let Some(c) = text.chars().find(|c| !printable(*c)) {
+        let class = match c as u32 {
+            0..=0x1f | 0x7f => "c0-control",
+            0x80..=0x9f => "c1-control",
+            _ => "non-character",
+        };
+        viol(stats, format!("C09/non-printable-in-output/{class}"), format!("the emitted text contains the non-printable character U+{:04X} unescaped", c as u32), case(&text));
+        return;
+    }
     if !crate::events::terminates(&text) {
         stats.cnt("skipped_parse_does_not_terminate", 1);
         return;
